@@ -55,6 +55,7 @@ func (cr *concRun) analyse(out *ConcOutcome) {
 	cr.checkStats()
 	cr.checkSweep()
 	cr.checkRefreshTrigger()
+	cr.checkConcIter()
 	cr.countOverlaps(out)
 	if cr.opts.Lin {
 		cr.checkLin(out)
@@ -584,11 +585,18 @@ func (cr *concRun) checkStaleLoad() {
 				if !wrote {
 					continue
 				}
-				cr.probe["write-inside-load-window"]++
-				if h.Ret < l.Exit || l.Exit == 0 {
-					cr.probe["write-before-loader-return"]++
-				} else {
-					cr.probe["write-after-loader-return"]++
+				// where the explicit write falls relative to the load: invoked while the loader body
+				// runs / between the loader's return and the end of the installation / afterwards
+				switch end := cr.loadInstallEnd(l); {
+				case l.Exit == 0 || h.Call < l.Exit:
+					cr.probe["write-while-loader-runs"]++
+					if l.Exit == 0 || h.Ret < l.Exit {
+						cr.probe["write-returned-before-loader-return"]++
+					}
+				case h.Call < end:
+					cr.probe["write-between-loader-return-and-install"]++
+				default:
+					cr.probe["write-after-load-finished"]++
 				}
 				for _, o := range observations[k] {
 					if o.call > h.Ret && o.v == vL {
@@ -601,6 +609,26 @@ func (cr *concRun) checkStaleLoad() {
 			}
 		}
 	}
+}
+
+// loadInstallEnd: the step at which the installation of a loader call's result is over: the return
+// of the client operation that ran the loader, or the end of the executor function / task for a
+// background reload.
+func (cr *concRun) loadInstallEnd(l *loadRec) uint64 {
+	if l.InstallEnd != 0 {
+		return l.InstallEnd
+	}
+	if l.Task >= 0 {
+		for _, h := range cr.hist {
+			if h.Task == l.Task && h.Idx == l.OpIdx && h.Done {
+				return h.Ret
+			}
+		}
+	}
+	if l.TaskRef != nil && l.TaskRef.FinishSeq != 0 {
+		return l.TaskRef.FinishSeq
+	}
+	return ^uint64(0) >> 2
 }
 
 // checkLoadRemovedNewerWrite (C09): the installation step of a load (its value, or the removal
@@ -1120,6 +1148,16 @@ func (cr *concRun) dumpTimeline() {
 	for _, h := range cr.hist {
 		ls = append(ls, line{h.Call, fmt.Sprintf("c%d#%d CALL %s", h.Task, h.Idx, h.Op)})
 		if h.Done {
+			if len(h.Res.Entries) > 0 {
+				ents := ""
+				for _, e := range h.Res.Entries {
+					if e.K < 100 {
+						ents += fmt.Sprintf(" %d:%d", e.K, e.V)
+					}
+				}
+				ls = append(ls, line{h.Ret, fmt.Sprintf("c%d#%d RET  %s -> %d entries; keys<100:%s", h.Task, h.Idx, h.Op.Kind, len(h.Res.Entries), ents)})
+				continue
+			}
 			ls = append(ls, line{h.Ret, fmt.Sprintf("c%d#%d RET  %s -> v=%d ok=%v err=%q map=%v refresh=%v calls=%d saw=%d/%v", h.Task, h.Idx, h.Op.Kind, h.Res.V, h.Res.Ok, h.Res.Err, h.Res.Map, h.Res.Refresh, h.Res.CompCalls, h.Res.CompSaw, h.Res.CompFound)})
 		}
 	}
